@@ -98,8 +98,7 @@ def check(ctx):
            "sorted positions are cut at every group start but the first" if b4 is not None else
            "np.split does not cut the sorted frame's own index at the group starts [1:]", clause="one summary row per distinct key")
     order = [s_sort, s_idx, s_uq, s_split]
-    ok = all(x is not None for x in order) and [x.lineno for x in order] == sorted(x.lineno for x in order) \
-        and len({x.lineno for x in order}) == 4
+    ok = all(x is not None for x in order) and all(precedes(ag, order[i_], order[i_ + 1]) for i_ in range(3))
     ctx.ob("IDX-3", ag, "sort; attach _index_; unique; np.split", s_idx or ag.node, ok,
            "the index is attached to the sorted frame (arange of ITS nrow) before group starts are taken" if ok else
            "the order sort -> attach index (arange of the sorted frame's nrow) -> unique -> split is broken: group slices index "
@@ -220,7 +219,7 @@ def check(ctx):
     s4, c4 = first_stmt(sp, "_D._sorted_index_ = np.arange(_D.nrow)", e)
     s5, c5 = first_stmt(sp, f"_S = _D.unique(*{BY})", e)
     seq = [s1, s2, s3, s4, s5]
-    ok = all(x is not None for x in seq) and [x.lineno for x in seq] == sorted({x.lineno for x in seq})
+    ok = all(x is not None for x in seq) and all(precedes(sp, seq[i_], seq[i_ + 1]) for i_ in range(len(seq) - 1))
     ctx.ob("IDX-3", sp, "select; _index_; sort; _sorted_index_; unique", s2 or sp.node, ok,
            "original positions are attached before, split points after the sort, on the same working frame" if ok else
            "split attaches its index columns in the wrong order relative to the sort (or on another frame): the returned index sets are "
@@ -317,6 +316,8 @@ def check(ctx):
     # ------------------------------------------------- GRD-sentinel / empty
     uq = repo.fn(f"{DF}.unique")
     reps = [c for _, c in calls_in(uq) if isinstance(c.func, ast.Attribute) and c.func.attr == "replace_na"]
+    if not reps:
+        raise AnalysisError("DataFrame.unique no longer normalises NaN/NaT with replace_na in its own body: idiom changed, re-confirm GRD-sentinel")
     per_col = False
     for rc in reps:
         colexpr = rc.func.value
